@@ -178,6 +178,17 @@ class C11(Property):
                 yield {'onts': gen_upgrade_chain(rng), 'order': [0, 1, 2], 'paths': [rng.choice(['object', 'xml']) for _ in range(2)]}
                 continue
             fam, chain = gen_family(rng)
+            if i % 6 == 1:
+                # an event type without properties (attachments only), in older, newer and conflicting definitions
+                for o in fam:
+                    if o.get('et'):
+                        et = o['et']
+                        et.update(props=[], relations=[], parent=None, attachments=[G.base_attachment('att')])
+                        for k in ('versionProp', 'seqProp', 'tsStart', 'tsEnd'):
+                            if k in et:
+                                et[k] = None
+                        et['version'] = rng.choice([1, 2, 2, 3])
+                        et['free']['description'] = rng.choice(['d', 'd', 'another description'])
             order = rng.sample([0, 1, 2], rng.choice([2, 3]))
             if chain and rng.random() < 0.7:
                 order = [0, 1, 2]      # successive upgrades, applied in the order they were made
@@ -258,6 +269,10 @@ class C11(Property):
                                                canon(element_of(A, slot).generate_xml()) == canon(element_of(B, slot).generate_xml()))
         except Exception as ex:
             res['restored'] = 'raised:' + type(ex).__name__
+        # an update that was refused because of what the ontology lacked is taken when it is offered again later: the event
+        # types of the last ontology alone (refused: their object types and concepts are unknown), then the rest, then the
+        # event types again
+        res['refused_then_taken'] = self.refused_then_taken(case['onts'][case['order'][-1]])
         # the back references of everything A and B hold lead to A and B themselves
         from vf import ownership
         res['owned'] = not (ownership.audit(A) or ownership.audit(B))
@@ -283,6 +298,44 @@ class C11(Property):
             rev, _a, _b = self.run(case['onts'], case['order'][::-1], case['paths'])
             res['reverse'] = rev.get('ok', {'err': rev.get('err')})
         return res
+
+    @staticmethod
+    def refused_then_taken(spec):
+        import copy as _copy
+        from edxml.ontology import Ontology
+        from edxml.error import EDXMLValidationError
+        if not spec.get('et'):
+            return True
+        try:
+            src = build_ontology(spec)
+            whole = as_element(src)
+            only_et, rest = _copy.deepcopy(whole), _copy.deepcopy(whole)
+            for c in only_et:
+                if not c.tag.endswith('}event-types'):
+                    for k in list(c):
+                        c.remove(k)
+            for c in rest:
+                if c.tag.endswith('}event-types'):
+                    for k in list(c):
+                        c.remove(k)
+            want = Ontology()
+            want.update(_copy.deepcopy(whole))
+        except Exception:
+            return True        # not a case
+        t = Ontology()
+        try:
+            t.update(_copy.deepcopy(only_et))
+            return 'event types that refer to unknown object types were accepted'
+        except EDXMLValidationError:
+            pass
+        except Exception as ex:
+            return 'the refused update raised ' + type(ex).__name__
+        try:
+            t.update(rest)
+            t.update(_copy.deepcopy(only_et))
+        except Exception as ex:
+            return 'offered again after what it lacked had arrived, the update raised ' + type(ex).__name__
+        return True if full(t) == full(want) else 'offered again after what it lacked had arrived, the update did not bring in the definitions'
 
     def requests(self, case):
         def m_ont(o):
@@ -313,7 +366,7 @@ class C11(Property):
         if 'err' in r:
             return {'err': r['err'], 'expected_failure': True}
         res = {'ok': self.expected_view(case, r, case['order']), 'untouched': True, 'monotone': True,
-               'idempotent': True, 'older_ignored': True, 'restored': True, 'owned': True, 'b_independent': True, 'a_independent': True}
+               'idempotent': True, 'older_ignored': True, 'restored': True, 'refused_then_taken': True, 'owned': True, 'b_independent': True, 'a_independent': True}
         if len(case['order']) == 2:
             rr = replies[1]
             res['reverse'] = {'err': rr['err']} if 'err' in rr else self.expected_view(case, rr, case['order'][::-1])
@@ -344,6 +397,8 @@ class C11(Property):
         if obs['restored'] is not True:
             return ('after deleting a definition from A, updating A again from the same ontology B does not bring in the '
                     'definition that B holds (%s)' % obs['restored'])
+        if obs.get('refused_then_taken', True) is not True:
+            return 'an update that was refused for what the ontology lacked: %s' % obs['refused_then_taken']
         if obs.get('owned') is False:
             return ('after the updates an ontology holds elements that refer back to another object than the one that holds them '
                     '(a definition was adopted by reference): the ontologies are not independent')
